@@ -106,6 +106,12 @@ def run(c, prog, ctx):
     # ---- R5 exact-value proofs
     _exact_proofs(c, prog)
 
+    # ---- R4 rests on Script::is_provably_unspendable (OP_RETURN-led, empty or larger than MAX_SCRIPT_SIZE); its truth table is
+    # C16's R1.template-table instance, evaluated here because a wider predicate admits zero-value outputs on spendable scripts
+    from . import c16 as _c16
+    c.borrow(_c16, "C16", prog, ctx, lambda rule, k: rule == "R1.template-table" and k.endswith("|is_provably_unspendable"),
+             "R4.unspendable-predicate", 1)
+
     c.floor("R1a.len-check-dominates", 7, "2+2 get_* calls, 3 verify calls counted on the pinned tree")
     c.floor("R2.push", 7, "domain 3, in_commits 3, out_commits 1")
 
@@ -256,6 +262,12 @@ def _bindings(c, f, b, prov, g):
     exp_in_utxo = has(by["in"], lambda x: x[0] == "blind::get_value_commit(%s, arg2)" % UTXO and under(x[1], IN_LOOP) and ISS not in x[1])
     c.inst("R2.push", "in_commits <- value commitment of spent_utxos[i] per input", len(exp_in_utxo) == 1,
            "in_commits pushes %s" % by["in"], f.where(), f.path)
+    # every input contributes, whatever the other entries are: the pushes for the spent output carry no condition besides the
+    # loop itself (surjection proofs are positional; a de-duplicated or filtered domain no longer matches the prover's)
+    extra_d = [[g for g in x[1] if g != IN_LOOP and "Try" not in g[0] and not g[0].startswith("discr(blind::get_")] for x in exp_domain_utxo]
+    extra_i = [[g for g in x[1] if g != IN_LOOP and "Try" not in g[0] and not g[0].startswith("discr(blind::get_")] for x in exp_in_utxo]
+    c.inst("R2.push-unconditional", "spent output's generator and commitment are pushed for every input", not any(extra_d) and not any(extra_i),
+           "conditions on the domain push %s; on the commitment push %s" % (extra_d, extra_i), f.where(), f.path)
     # issuance pseudo-inputs
     iss_dom = has(by["domain"], lambda x: ISS in x[1])
     iss_in = has(by["in"], lambda x: ISS in x[1])
